@@ -132,7 +132,27 @@ func runC10(c *Ctx) {
 	}
 	c.role("hand publisher", fnKey(pub))
 	c.touch(fnKey(pub))
-	_ = playerLoop
+	// the publisher reaches its loop on every path: an early return (no board yet, say) leaves the
+	// strengths of the street before, or zero, published and compared
+	{
+		fp, _ := s.Function(pub)
+		var skip []string
+		for _, ps := range fp {
+			if ps.End != "return" {
+				continue
+			}
+			has := false
+			for _, e := range ps.Events {
+				if e.Kind == "loop" && e.Loop == playerLoop {
+					has = true
+				}
+			}
+			if !has {
+				skip = append(skip, "no hand is evaluated on path ["+ps.CondString()+"]")
+			}
+		}
+		c.check(len(skip) == 0, "one-hand", fnKey(pub)+"#always", p.FnPos(pub), "every path of the publisher evaluates all players", "the publisher can return without evaluating", uniq(skip, 2)...)
+	}
 	var best *Event // the call computing the player's best hand
 	{
 		var bad []string
